@@ -438,7 +438,7 @@ def st_unknown(draw):
                                 ("malformed_gap", "G\t*\tA+\tB-\tx\t*")])
     if gen.chance(r, 0.15):
         # a line that can only be judged once the version is known waits in the queue and is
-        # refused then: the call that fixes the version fails (known finding D86, DESIGN 5.3)
+        # refused then: the call that fixes the version fails and must leave the Gfa as it was (D86)
         pre = [x for x in pre if not x.startswith("H")] + [gen.choice(r, ["L\tA\t+\tB", "L\tA\t+\tB\t+\t5Q", "C\tA\t+\tB\t+\tx\t*"])]
         what, fail = "deciding_line_with_refused_queued_line", gen.choice(r, ["S\tzz\t*", "H\tVN:Z:1.0", "S\tzz\t7\t*", "E\t*\tzz+\tzy+\t0\t1\t0\t1\t*"])
     if what == "header_conflict" and "H\tTS:i:5" not in pre:
